@@ -28,7 +28,7 @@ STUBBED = ['handler tie-break order and task order (decided by the tape through 
 ASSUMPTIONS = ['all components use channel "*"; handlers may override their channel (a/b) and events may be fired on explicit channels, also two at once: for those only the order and stop() clauses are judged (matching is C01\'s subject)', 'handlers are not generators; a handler may raise (after firing/stopping): the order and stop() clauses hold regardless']
 PROBES = ['fired-in-handler', 'nested-flush', 'nested-flush-new-pass', 'stop', 'mixed-priority-pass', 'tie-priority-handlers', 'fault:handler-raise', 'stop-then-raise', 'multi-channel-event']
 TIERS = {
-    'quick': dict(runs=24000, wall=35, chunk=250, cfg=dict(max_events=40, max_ops=12)),
+    'quick': dict(runs=60000, wall=35, chunk=250, cfg=dict(max_events=40, max_ops=12)),
     'thorough': dict(runs=600000, wall=600, chunk=500, cfg=dict(max_events=120, max_ops=30)),
 }
 
